@@ -20,7 +20,7 @@ ASSUMPTIONS = [
     "existence queries reject corruption on local stores only (the base store's query is existence-only, as the statement says)",
 ]
 MONITORS = "verdicts of check / oids_exist / checkout / verifying add compared with the harness's own ground truth of which objects were tampered; file presence and mode bits re-read from disk"
-REQUIRED_COUNTERS = ["re_adds_of_tampered_object", "probes_with_removal_denied", "big_existence_queries", "verify_transfer_rounds", "verify_add_over_intact_object", "read_only_handle_probes", "used_intact_before_tamper", "probe/check", "probe/oids_exist", "probe/checkout", "probe/verify-add", "state/warm", "state/cold", "state/none",
+REQUIRED_COUNTERS = ["verify_transfer_rounds_by_configuration_only", "re_adds_of_tampered_object", "probes_with_removal_denied", "big_existence_queries", "verify_transfer_rounds", "verify_add_over_intact_object", "read_only_handle_probes", "used_intact_before_tamper", "probe/check", "probe/oids_exist", "probe/checkout", "probe/verify-add", "state/warm", "state/cold", "state/none",
                      "tampered_objects", "intact_objects_checked", "store/local", "store/base", "tamper/truncate", "tamper/append",
                      "tamper/same-length", "tamper/diff-length", "tamper/rename", "unprotected_intact_checked"]
 
@@ -160,13 +160,17 @@ def run_shard(ctx):
                     droot = os.path.join(d, "vdest")
                     vdest = env.odb_of_class(cls, droot, state=state, verify=True)
                     ids = {sobj.hash_info} | {hi for _k, _m2, hi in sobj}
+                    # the destination is *configured* to verify; the caller may or may not repeat that wish in the call
+                    vkw = {"verify": True} if rng.random() < 0.5 else {}
+                    if not vkw:
+                        res.count("verify_transfer_rounds_by_configuration_only")
                     try:
-                        _transfer(sbase, vdest, ids, verify=True, jobs=rng.choice([1, 4]), cache_odb=sbase)
+                        _transfer(sbase, vdest, ids, jobs=rng.choice([1, 4]), cache_odb=sbase, **vkw)
                     except Exception:  # noqa: BLE001  (loud is fine)
                         pass
                     probs, _objs, _nt = audit_store(droot, "md5", check_dirs=False)
                     for kind, oid, info_ in probs[:2]:
-                        res.violation("verifying-transfer-retained-mismatching-object/" + ("dir-object" if oid.endswith(DIR_SUFFIX) else "file-object"),
+                        res.violation("verifying-transfer-retained-mismatching-object/" + ("" if vkw else "store-configured-to-verify/") + ("dir-object" if oid.endswith(DIR_SUFFIX) else "file-object"),
                                       f"after transfer(verify=True) the destination holds {oid} whose bytes do not match its name", case=case,
                                       detail={**cfg, "victim": victim})
                 if state:
